@@ -2257,6 +2257,7 @@ package sarama
 // the admission test says it fits, or the buffer has just been rolled over and is empty (a single message may exceed
 // a limit on its own - the dispatcher has already rejected messages larger than MaxMessageBytes).
 //@ func (bp *brokerProducer) handleResponse(response) trusted
+//@   ensures[flush_timer_kept] old(bp.parent.conf.Producer.Flush.Frequency > 0 && bp.buffer.bufferCount > 0 ==> bp.timer != nil) ==> (bp.parent.conf.Producer.Flush.Frequency > 0 && bp.buffer.bufferCount > 0 ==> bp.timer != nil)
 //@   modifies bp.buffer, bp.timer, bp.timerFired, bp.closing, produceSet.bufferBytes, produceSet.bufferCount, produceSet.msgs, produceSet.swept, partitionSet.bufferBytes, partitionSet.msgs, ProducerMessage.disp, ProducerMessage.errEvents, ProducerMessage.succEvents, ProducerMessage.flags, ProducerMessage.retries, ProducerMessage.sequenceNumber, ProducerMessage.producerEpoch, ProducerMessage.hasSequence, ProducerMessage.Offset, ProducerMessage.Timestamp, transactionManager.producerEpoch, $wg, maps
 //@   ensures[buffer_well_formed] bp.buffer != nil && 0 <= bp.buffer.bufferBytes && bp.buffer.bufferBytes <= 2305843009213693952 && (forall t string, p int32 :: bp.buffer.msgs[t] != nil && bp.buffer.msgs[t][p] != nil ==> 0 <= bp.buffer.msgs[t][p].bufferBytes && bp.buffer.msgs[t][p].bufferBytes <= 2305843009213693952)
 //@ func (bp *brokerProducer) needsRetry(msg) props C16
@@ -2275,6 +2276,8 @@ package sarama
 //@   callsite brokerProducer.rollOver: effect bp.rolls == old(bp.rolls) + 1
 //@   callsite brokerProducer.rollOver: modifies bp.rolls
 //@   ensures[forced_rollover_rolls @C05] err == nil && forceRollover ==> bp.rolls == old(bp.rolls) + 1
+//@   ensures[flush_timer_kept @C16] old(bp.parent.conf.Producer.Flush.Frequency > 0 && bp.buffer.bufferCount > 0 ==> bp.timer != nil) ==> (bp.parent.conf.Producer.Flush.Frequency > 0 && bp.buffer.bufferCount > 0 ==> bp.timer != nil)
+//@   loop 0: invariant[flush_timer_kept @C16] old(bp.parent.conf.Producer.Flush.Frequency > 0 && bp.buffer.bufferCount > 0 ==> bp.timer != nil) ==> (bp.parent.conf.Producer.Flush.Frequency > 0 && bp.buffer.bufferCount > 0 ==> bp.timer != nil)
 //@   ensures[rolls_only_grow @C05] bp.rolls >= old(bp.rolls)
 //@   loop 0: invariant[not_rolled_yet @C05] bp.rolls == old(bp.rolls)
 //@   requires msg != nil && bp.parent != nil && bp.parent.conf != nil && MaxRequestSize >= 10240
@@ -2294,6 +2297,11 @@ package sarama
 // (C05) a message joins a batch of its own producer epoch: the buffer it is added to carries the message's epoch, or was
 // rolled over while this message was being handled
 //@   loop 0: iter_ensures[rolls_only_grow @C05] bp.rolls >= it(bp.rolls)
+// (C16) a buffered message is flushed on time: whenever Flush.Frequency is set and the buffer holds a message, the
+// flush timer is armed (T-stdlib: time.After returns a channel)
+//@   requires bp.buffer.bufferCount == 0
+//@   callsite After: effect $result != nil
+//@   loop 0: invariant[flush_timer_armed_while_buffering @C16] bp.parent.conf.Producer.Flush.Frequency > 0 && bp.buffer.bufferCount > 0 ==> bp.timer != nil
 //@   callsite produceSet.add: requires[batch_of_the_message_epoch @C05] bp.parent.txnmgr.producerID != noProducerID ==> bp.buffer.producerEpoch == msg.producerEpoch || bp.rolls != it(bp.rolls)
 //@   requires bp.parent != nil && bp.parent.conf != nil && bp.parent.txnmgr != nil && MaxRequestSize >= 10240 && bp.currentRetries != nil
 //@   requires bp.buffer != nil && 0 <= bp.buffer.bufferBytes && bp.buffer.bufferBytes <= 2305843009213693952 && (forall t string, p int32 :: bp.buffer.msgs[t] != nil && bp.buffer.msgs[t][p] != nil ==> 0 <= bp.buffer.msgs[t][p].bufferBytes && bp.buffer.msgs[t][p].bufferBytes <= 2305843009213693952)
